@@ -56,6 +56,13 @@ func genAltSvc(r *hk.Rand) string {
 var chalAlphabet = []string{"Digest ", "Digest", "realm", "nonce", "qop", "algorithm", "opaque", "charset", "userhash", "stale", "domain", "=", "=", "\"", "\"", ",", ", ", " ", "auth", "auth-int", "MD5", "SHA-256", "SHA-512-256", "-sess", "UTF-8", "\\", "\\\"", "x", "\t", "\x00", "\xff", "true"}
 
 func genChallenge(r *hk.Rand) string {
+	if r.Chance(30) {
+		a := hk.Pick(r, algVariants(r))
+		if r.Bool() {
+			a = "\"" + a + "\""
+		}
+		return "Digest realm=\"r\", nonce=\"n\", qop=\"" + hk.Pick(r, []string{"auth", "auth-int", "auth,auth-int", ""}) + "\", algorithm=" + a
+	}
 	switch r.Intn(6) {
 	case 0, 1:
 		return hk.Pick(r, challengeVals)
